@@ -34,10 +34,41 @@ CONSTRUCTORS = {"register_type", "register_alternative", "preprocess", "update_w
 OBSERVED = ("alternatives", "distanceToTerminal", "recursive_prods", "all_nodes", "terminals", "non_terminals")
 
 
+_CLOSURE: set[str] = set()
+
+
+def construction_closure(ctx: Ctx) -> set[str]:
+    """the named construction entry points plus every function of the grammar package all of whose (resolved) callers are
+    already in the set: helpers extracted from preprocess / register_type stay part of construction"""
+    prog, res = ctx.prog, ctx.res
+    callers: dict[str, set[str]] = {}
+    for f in prog.functions.values():
+        top = f
+        while top.parent is not None:
+            top = top.parent
+        for c in res.calls_in(f, include_nested=False):
+            t = res.resolve(f, c)
+            if t.kind == "repo":
+                for g in t.targets:
+                    callers.setdefault(g.fullname, set()).add(top.fullname)
+    closure = set(CONSTRUCTION)
+    changed = True
+    while changed:
+        changed = False
+        for g in prog.functions.values():
+            if g.fullname in closure or g.parent is not None or not g.module.name.startswith("geneticengine.grammar"):
+                continue
+            cs = callers.get(g.fullname, set()) - {g.fullname}
+            if cs and cs <= closure:
+                closure.add(g.fullname)
+                changed = True
+    return closure
+
+
 def in_construction(f: FunctionInfo) -> bool:
     g: Optional[FunctionInfo] = f
     while g is not None:
-        if g.fullname in CONSTRUCTION:
+        if g.fullname in CONSTRUCTION or g.fullname in _CLOSURE:
             return True
         g = g.parent
     return False
@@ -52,6 +83,9 @@ def run(ctx: Ctx) -> None:
     for name in CONSTRUCTION:
         if name not in prog.functions:
             raise AnalysisError(f"C10: construction-set anchor {name} missing")
+    _CLOSURE.clear()
+    _CLOSURE.update(construction_closure(ctx))
+    ctx.extra["construction_set"] = sorted(_CLOSURE)
 
     def is_grammar(fn: FunctionInfo, e: ast.AST) -> bool:
         if isinstance(e, ast.Name) and e.id == "self":
